@@ -285,6 +285,9 @@ pub enum Op {
     ChaosWake { how: u8 },
     /// Adds a connection to output port `port` (clone-sharing check).
     Connect { port: u8, target: u16, cid: u32 },
+    /// Builds, runs and drops a small single-threaded simulation inside the handler (a
+    /// simulation nested in a model).
+    Nested { models: u8 },
 }
 
 #[derive(Clone, Copy, Debug, Serialize, Deserialize, PartialEq)]
